@@ -639,7 +639,7 @@ def _do_graph(res, cspuz, n_op, op, cfg):
     reuse = _LAST_SOLVER.get("s") if op.get("same_solver") else None
     if reuse is not None and _LAST_SOLVER.get("cspuz") is not cspuz:
         reuse = None  # the process was restarted since
-    n_before = len(reuse.constraints) if reuse is not None else 0
+    n_before = len(list(reuse.constraints)) if reuse is not None else 0
     if reuse is not None:
         res.hit("graph:same_solver_as_previous_call")
     try:
@@ -656,7 +656,7 @@ def _do_graph(res, cspuz, n_op, op, cfg):
     except Exception as e:
         res.violate("C20/unexpected-exception", f"{tag} raised {type(e).__name__}: {str(e)[:100]}")
         return
-    native = _has_native(cspuz, s.constraints[n_before:])
+    native = _has_native(cspuz, list(s.constraints)[n_before:])
     res.log("op", n_op, "graph", fn, flag, cfg[field], native)
     res.hit("graph:native" if native else "graph:encoded")
     if fn in ("avc_acyclic", "avc_grid_acyclic") and native:
